@@ -229,6 +229,28 @@ theorem match_reachable_spec {α : Type} (src : Vol α) (tgt : Geom) (tol : Rat)
   simp only [href] at h1 h2
   exact ⟨h1, h2⟩
 
+/-- **What happens for `tol > 1`** (why `match_complete` asks for `tol ≤ 1`): the alignment test
+`|u·v - 1| < tol or |u·v + 1| < tol` then accepts every pair of unit vectors and the integer-scale test
+cannot fail, so all three target axes are assigned to source axis 0 and
+`permute_spatial_axes([0, 0, 0])` raises ValueError — `match_geometry` refuses *every* target in the
+same coordinate system, whatever its geometry. -/
+theorem match_tol_gt_one {α : Type} (src : Vol α) (tgt : Geom) (tol : Rat) (mode : PadMode α) (h : 1 < tol)
+    (hs : UnitDirs src.geom) (ht : UnitDirs tgt) (hfor : forConflict src.geom tgt = false) (hcs : src.geom.cs = tgt.cs) :
+    matchGeometry src tgt tol mode = .error .value :=
+  matchGeometry_tol_gt_one src tgt tol mode h hs ht hfor hcs
+
+/-- In particular completeness fails beyond 1 already for the trivially reachable target: a
+well-formed volume cannot be matched to its own geometry with `tol > 1` (`tol = 1` still works, by
+`match_complete`). -/
+theorem counterexample_match_complete_tol_gt_one {α : Type} (src : Vol α) (tol : Rat) (mode : PadMode α)
+    (hwf : WF src.geom) (h : 1 < tol) :
+    Reachable src.geom src.geom ∧ matchGeometry src src.geom tol mode = .error .value := by
+  refine ⟨(NormalForm.refl _).reachable, ?_⟩
+  have hu : UnitDirs src.geom := fun a => by have := hwf.orth a a; simpa using this
+  apply match_tol_gt_one src src.geom tol mode h hu hu _ rfl
+  unfold forConflict
+  rcases src.geom.frameOfRef with _ | u <;> simp
+
 /-! ## Clause 3: index mapping between two volumes -/
 
 /-- **The transformer agrees with mapping through physical space.**  Whenever it answers, every
